@@ -269,6 +269,39 @@ def build(rec, hook=None):
         out["closed_form"] = lambda v: (_lg(v["y"] - np.tanh(A @ v["x"]), 1 / v["s"])
                                         + float(np.sum([_lg(v["x"][i] - 0.3, c_) for i, c_ in enumerate(np.linspace(0.5, 1.5, n))]))
                                         + _lgam(v["s"], 1.0, 0.1))
+    elif g == "two_lik":
+        A2_, y2_ = A2, vals["y2"]
+        out["closed_form"] = lambda v: (_lg(v["y1"] - A @ v["x"], 0.4) + _lg(v["y2"] - A2_ @ v["x"], 1 / v["s"]) + _lg(v["x"], 0.8)
+                                        + _lgam(v["s"], 1.0, 0.1))
+    elif g == "xz_s":
+        out["closed_form"] = lambda v: (_lg(v["y"] - A @ v["x"] - B @ v["z"], 1 / v["s"]) + _lg(v["x"], 1.0)
+                                        + _lg(np.asarray(v["z"], float) - 1.0, 2.0) + _lgam(v["s"], 1.0, 0.1))
+    elif g == "laplace_b":
+        out["closed_form"] = lambda v: (_lg(v["y"] - A @ v["x"], 0.5) + n * np.log(0.5 / v["b"])
+                                        - float(np.sum(np.abs(v["x"]))) / v["b"] + _lgam(v["b"], 2.0, 1.0))
+    elif g == "mean_m":
+        out["closed_form"] = lambda v: (_lg(v["y"] - A @ v["x"], 1 / v["s"]) + _lg(np.asarray(v["x"], float) - float(np.ravel(v["m"])[0]), 0.6)
+                                        + _lg(np.ravel(v["m"]), 1.0) + _lgam(v["s"], 1.0, 0.1))
+    elif g == "lin_geom":
+        out["closed_form"] = lambda v: _lg(v["y"] - A @ v["x"], 1 / v["s"]) + _lg(v["x"], 0.8) + _lgam(v["s"], 1.0, 0.1)
+    elif g in ("lmrf_d", "cmrf_d") and rec.get("bc", "zero") == "zero":
+        Dz = np.zeros((n + 1, n))
+        for i_ in range(n):
+            Dz[i_, i_], Dz[i_ + 1, i_] = 1.0, -1.0
+        if g == "lmrf_d":
+            pri = lambda v: (n + 1) * (-(np.log(2) + np.log(1 / v["d"]))) - float(np.sum(np.abs(Dz @ v["x"]))) * v["d"]
+        else:
+            pri = lambda v: -(n + 1) * np.log(np.pi) + float(np.sum(np.log(1 / v["d"]) - np.log((Dz @ v["x"]) ** 2 + (1 / v["d"]) ** 2)))
+        out["closed_form"] = lambda v: _lg(v["y"] - A @ v["x"], 0.3) + pri(v) + _lgam(v["d"], 1.0, 0.1)
+    elif g == "gmrf_d_s" and rec.get("bc", "zero") == "zero":
+        Dz = np.zeros((n + 1, n))
+        for i_ in range(n):
+            Dz[i_, i_], Dz[i_ + 1, i_] = 1.0, -1.0
+        P_ = Dz.T @ Dz
+        ld_ = float(np.linalg.slogdet(P_)[1])
+        out["closed_form"] = lambda v: (_lg(v["y"] - A @ v["x"], 1 / v["s"])
+                                        + 0.5 * (n * (np.log(v["d"]) - np.log(2 * np.pi)) + ld_) - 0.5 * v["d"] * float(v["x"] @ P_ @ v["x"])
+                                        + _lgam(v["d"], 1.0, 0.1) + _lgam(v["s"], 2.0, 0.5))
     J = JointDistribution(*dens)
     out.update(J=J, names=[d_.name for d_ in dens], vals=vals, dens={d_.name: d_ for d_ in dens})
     return out
